@@ -332,9 +332,9 @@ fn exec<R: Read>(r: &mut H263Reader<R>, ops: &[Op], propagate: bool, out: &mut V
             }
             Op::Umv => match r.read_umv() {
                 Ok(v) => {
-                    // HalfPel's Debug form is "HalfPel(n)"
-                    let s = format!("{:?}", v);
-                    (format!("Ok({})", s.trim_start_matches("HalfPel(").trim_end_matches(')')), false)
+                    // recover the half-sample count from the public API: v = 2 * whole + half
+                    let (whole, half) = v.into_lerp_parameters();
+                    (format!("Ok({})", whole as i32 * 2 + half as i32), false)
                 }
                 Err(e) => (err_text(&e), true),
             },
